@@ -108,6 +108,49 @@ ANCHORS = [
     ("kafe2.fit.util", "to_numpy_arrays"),
 ]
 
+
+
+# ------------------------------------------------------------------ harness speed: memoise the SymPy part of vlib.models.Model
+# Model.__init__ derives f, df/dx, df/dp, cdf with SymPy (0.1-0.8 s each on this box); a fit case constructs 4-6 of them
+# (generator, dsl.build_fit, RefFit).  The lambdified functions depend only on (family, order, density): they are shared between
+# instances, the per-instance fields (defaults, name) are set as Model.__init__ does.  Verified against the original below; on any
+# disagreement the memoisation is switched off.
+def _install_model_cache():
+    orig = Model.__init__
+    if getattr(orig, "_c09_cached", False):
+        return
+    protos = {}
+
+    def fast_init(self, family, order=None, name=None, defaults=None, density=False):
+        key = (family, None if order is None else tuple(order), bool(density))
+        proto = protos.get(key)
+        if proto is None:
+            orig(self, family, order, None, None, density)
+            protos[key] = proto = dict(self.__dict__)
+        self.__dict__.update({k: (list(v) if isinstance(v, list) and k != "_dfdp" else v) for k, v in proto.items()})
+        if defaults is not None:
+            self.defaults = [float(d) for d in defaults]
+        self.name = name or "%s_model" % family
+
+    fast_init._c09_cached = True
+    Model.__init__ = fast_init
+    try:
+        x = np.array([0.3, 1.7, 2.9])
+        for args in ((("poly2",), {"order": [2, 0, 1], "name": "q", "defaults": [0.3, 0.2, 0.1]}), (("expdens",), {"density": True}), (("poly2",), {})):
+            a = Model(*args[0], **args[1])
+            a = Model(*args[0], **args[1])  # second construction comes from the cache
+            b = Model.__new__(Model)
+            orig(b, *args[0], **args[1])
+            assert a.spec() == b.spec() and a.pnames == b.pnames and a.linear == b.linear and a.source() == b.source()
+            assert np.array_equal(a.f(x, a.defaults), b.f(x, b.defaults)) and np.array_equal(a.dfdp(x, a.defaults), b.dfdp(x, b.defaults))
+            if a.density:
+                assert np.array_equal(a.cdf(x, a.defaults), b.cdf(x, b.defaults)) and a.source(cdf=True) == b.source(cdf=True)
+    except Exception:
+        Model.__init__ = orig
+
+
+_install_model_cache()
+
 RT = 1e-15  # PyYAML round-trips doubles exactly; 1e-15 relative leaves room for one re-derivation (abs <-> rel)
 ULP = 1e-13
 LIN = (1e-9, 1e-12)
@@ -151,9 +194,9 @@ def floors(tier):
             "points.constraint_cost": 20 if q else 400,
             "refit": 10 if q else 200,
             "second-cycle.document": 80 if q else 1500,
-            "wwr.content": 8 if q else 100,
-            "wwr.size": 8 if q else 100,
-            "state.results": 8 if q else 100,
+            "wwr.content": 5 if q else 100,
+            "wwr.size": 5 if q else 100,
+            "state.results": 4 if q else 100,
         },
         "ops": ["to_file", "from_file", "to_file.second", "do_fit", "asymmetric_errors", "save_state", "load_state", "disable_error", "fix_parameter", "limit_parameter", "add_parameter_constraint", "add_matrix_parameter_constraint", "add_error", "add_matrix_error"],
         "reach": ["%s:%s" % a for a in ANCHORS],
@@ -1398,11 +1441,33 @@ def _classify(h, obs, wit):
                     return "C09/relative-simple-constraint-written-with-absolute-uncertainty"
             if a != b:
                 break
+    # -- parameter values set but not yet evaluated: the parametric model still holds the previous values when it is written
+    if kind == "fit" and case["ftype"] != "custom" and case["stage"] == "unfitted" and obs == "parameters" and path.startswith("values") and wit.get("objects"):
+        eo, go = wit["objects"]
+        setters = [op for op in case["ops"] if op[0] == "set_parameter_values" or (op[0] == "fix_parameter" and len(op) > 2 and op[2] is not None)]
+        dflt = case["spec"]["model"].get("defaults") if not case.get("library") else [1.0] * len(eo["values"])
+        if setters and eo["names"] == go["names"] and dflt is not None and len(dflt) == len(go["values"]):
+            touched = set()
+            for op in setters:
+                touched.update(op[1] if op[0] == "set_parameter_values" else [op[1]])
+            if all(g == e or (n in touched and g == float(d)) for g, e, d, n in zip(go["values"], eo["values"], dflt, eo["names"])):
+                return "C09/fit-saved-before-evaluation-writes-stale-model-parameters"
     # -- CustomFit: parameter values come back as the defaults of the cost function
     if kind == "fit" and case["ftype"] == "custom" and path.startswith("values") and obs in ("parameters", "results.stored"):
         eo, go = wit.get("objects", (None, None))
-        if eo and obs == "parameters" and go["values"] == [float(d) for d in case["custom"]["defaults"]] and eo["values"] != go["values"] and eo["names"] == go["names"]:
-            return "C09/custom-fit-parameter-values-not-restored"
+        dflt = [float(d) for d in case["custom"]["defaults"]]
+        if eo and obs == "parameters" and eo["names"] == go["names"] and len(go["values"]) == len(dflt):
+            # every parameter that differs came back as the default in the cost function's signature (fixed ones are re-fixed to their value)
+            if all(g == e or g == d for g, e, d in zip(go["values"], eo["values"], dflt)):
+                return "C09/custom-fit-parameter-values-not-restored"
+    # -- preface comment of a fitted fit rounds gof/ndf via log10: ndf == 0 (or gof == 0) overflows
+    if kind == "fit" and obs in ("to_file", "save_state") and case["stage"] != "unfitted" and wit.get("exc_type") in ("OverflowError", "ValueError", "ZeroDivisionError") and "_get_preface_comment" in str(wit.get("traceback", "")) and f.get("ndf") == 0:
+        return "C09/fitted-fit-with-zero-degrees-of-freedom-not-writable"
+    # -- matrix constraint (correlation matrix + uncertainties given as a list): the writer calls .tolist() on the list
+    if obs == "to_file" and wit.get("exc_type") == "AttributeError" and "'list' object has no attribute 'tolist'" in exc and "constraint/yaml_drepr" in str(wit.get("traceback", "")):
+        cons = f.get("constraints") or ([case] if kind == "constraint" else [])
+        if any(c.get("matrix_type") == "cor" and isinstance(c.get("uncertainties"), list) for c in cons):
+            return "C09/matrix-constraint-uncertainties-list-not-writable"
     # -- Gauss approximation cost: identifier written is the method name, which the reader does not know
     if kind == "fit" and obs == "from_file" and f.get("fid") in GAUSS_APPROX and wit.get("exc_type") == "NameError" and "gaussian_approximation" in exc:
         return "C09/gauss-approximation-cost-identifier-unknown-to-reader"
@@ -1497,6 +1562,16 @@ def stage_fit(ctx, fit, stage):
     return True
 
 
+def well_posed(ctx, fit, feats):
+    """fits with more free parameters than measurements are not generated on purpose: discard them (ndf == 0 is legitimate and kept)"""
+    ndf = fit.ndf
+    feats["ndf"] = ndf
+    if ndf is not None and ndf < 0:
+        ctx.discard("ndf-negative")
+        return False
+    return True
+
+
 def quiescent(ctx, fit):
     """the original is observed at a quiescent point: two consecutive observations must agree (an original whose
     public reads move its own state - minimiser copies after MINOS - is C08's subject, not a save/load defect)"""
@@ -1522,6 +1597,19 @@ def build_staged_fit(ctx, case, count_ops=True):
 
 def refit(h, fit, re, case):
     ctx = h.ctx
+    # refits are compared only on well-conditioned problems (DESIGN tolerance policy: cond(V) <= 1e8, measured on the original)
+    try:
+        if not isinstance(fit, CustomFit) and h.feats.get("fid") in NEEDS_ERRORS | set(GAUSS_APPROX):
+            V = np.array(fit.total_cov_mat, dtype=float)
+            if h.feats.get("fid") in GAUSS_APPROX:
+                V = V + np.diag(np.array(fit.model, dtype=float))
+            w = np.linalg.eigvalsh((V + V.T) / 2.0)
+            if not np.all(np.isfinite(w)) or w[0] <= 0 or w[-1] / w[0] > 1e8:
+                ctx.discard("refit-skipped-covariance-ill-conditioned")
+                return
+    except Exception:
+        ctx.discard("refit-skipped-covariance-ill-conditioned")
+        return
     try:
         with time_limit(40.0):
             fit.do_fit()
@@ -1533,12 +1621,22 @@ def refit(h, fit, re, case):
     except (Exception, OpTimeout):
         ctx.discard("refit-of-original-failed")
         return
-    if h.call("refit.do_fit", lambda: re.do_fit()) is None:
+    scipy_ = case.get("minimizer") == "scipy"
+    ts, tc = (5e-2, 5e-3) if scipy_ else (1e-2, 1e-3)
+    try:  # the yardstick must be reproducible on the original itself (ill-posed problems: flat directions, unbounded cost)
+        with time_limit(40.0):
+            fit.do_fit()
+        pa2 = np.array(fit.parameter_values, dtype=float)
+        if np.any(np.abs(pa2 - pa) > 0.3 * ts * sig + 1e-12 * np.abs(pa)) or abs(float(fit.cost_function_value) - ca) > 0.3 * tc + 1e-9 * abs(ca):
+            raise ValueError("not reproducible")
+        pa, ca = pa2, float(fit.cost_function_value)
+    except (Exception, OpTimeout):
+        ctx.discard("refit-of-original-not-reproducible")
+        return
+    if h.call("refit.do_fit", lambda: (re.do_fit(), re.do_fit())) is None:
         return
     pb = np.array(re.parameter_values, dtype=float)
     cb = float(re.cost_function_value)
-    scipy_ = case.get("minimizer") == "scipy"
-    ts, tc = (5e-2, 5e-3) if scipy_ else (1e-2, 1e-3)
     fixed = set(fit._fitter.fixed_parameters)
     lim = dict(fit._fitter.limited_parameters)
     bad = []
@@ -1560,7 +1658,9 @@ def refit(h, fit, re, case):
 
 def run_fit(ctx, h, case, tmp, tag):
     fit = build_staged_fit(ctx, case)
-    if not stage_fit(ctx, fit, case["stage"]) or not quiescent(ctx, fit):
+    # no observation of the original before it is saved, except after MINOS (see quiescent): what is written must not depend on
+    # whether somebody happened to read the fit before
+    if not well_posed(ctx, fit, h.feats) or not stage_fit(ctx, fit, case["stage"]) or (case["stage"] == "asym" and not quiescent(ctx, fit)):
         h.alive = False
         h.discarded = True
         return
@@ -1601,14 +1701,16 @@ def run_wwr(ctx, h_factory, case, tmp):
     observe = obs_container if b_case["kind"] == "container" else obs_fit
     a, b = build(a_case), build(b_case)
     p, q = os.path.join(tmp, "wwr.yml"), os.path.join(tmp, "wwr-fresh.yml")
-    if h.call("to_file", lambda: a.to_file(p), where="first object") is None:
-        return h
+    ha = h_factory(a_case)  # a failure of the first write is judged with the features of the first object
+    if ha.call("to_file", lambda: a.to_file(p), where="first object") is None:
+        return ha
     size_a = os.path.getsize(p)
     ctx.op("to_file")
     if h.call("to_file", lambda: b.to_file(p), where="second object, same path") is None:
         return h
     size_b = os.path.getsize(p)
-    if h.call("to_file", lambda: b.to_file(q), where="second object, fresh path") is None:
+    twin = build(b_case)  # an identically built object in the same (unobserved) state
+    if h.call("to_file", lambda: twin.to_file(q), where="twin of the second object, fresh path") is None:
         return h
     fresh = os.path.getsize(q)
     h.first_longer = size_a > fresh
@@ -1627,7 +1729,7 @@ def run_wwr(ctx, h_factory, case, tmp):
 def run_state(ctx, h, case, tmp):
     fc = case["fit"]
     fit = build_staged_fit(ctx, fc)
-    if not stage_fit(ctx, fit, fc["stage"]) or not quiescent(ctx, fit):
+    if not well_posed(ctx, fit, h.feats) or not stage_fit(ctx, fit, fc["stage"]) or (fc["stage"] == "asym" and not quiescent(ctx, fit)):
         h.alive = False
         h.discarded = True
         return
@@ -1705,7 +1807,7 @@ def run_case(ctx, case, tmp):
     elif kind == "fit":
         run_fit(ctx, h, case, tmp, tag)
     elif kind == "wwr":
-        h = run_wwr(ctx, lambda c: History(ctx, c, feats), case, tmp)
+        h = run_wwr(ctx, lambda c: History(ctx, c, features(c)), case, tmp)
         if not getattr(h, "first_longer", False):
             return False
     elif kind == "state":
